@@ -69,3 +69,84 @@ fn('dsplib::Pow2FftPlan::solve', P2, sig='(const dsplib::arr_cmplx &) const', ke
    requires=[('invariant', P2_OK)],
    throws='x.len != n_',
    ensures=[('length', 'result.len == n_')])
+
+# ---------------------------------------------------------------------------------------------------
+# tables of the radix-2 plan
+from contracts.mathfun import LIBM as _LIBM
+ENV.update(_LIBM)
+
+
+def trig8(t):
+    """reflection identities of cos/sin (A2) instantiated at t, and the axis values"""
+    from engine.prelude import COS, SIN
+    from engine.core import PI
+    return _z3.And(COS(2 * PI - t) == COS(t), COS(PI + t) == -COS(t), COS(PI - t) == -COS(t),
+                   SIN(PI / 2 + t) == COS(t), SIN(PI / 2 - t) == COS(t), SIN(3 * PI / 2 + t) == -COS(t), SIN(3 * PI / 2 - t) == -COS(t),
+                   COS(0) == 1, SIN(0) == 0, COS(PI / 2) == 0, SIN(PI / 2) == 1, COS(PI) == -1, SIN(PI) == 0,
+                   COS(3 * PI / 2) == 0, SIN(3 * PI / 2) == -1)
+
+
+ENV['TRIG8'] = trig8
+# twiddle W_n^k = exp(-2*pi*i*k/n), opaque in quantified clauses and revealed pointwise by TW_DEF
+TWR = _z3.Function('tw_re', _z3.IntSort(), _z3.IntSort(), _z3.RealSort())
+TWI = _z3.Function('tw_im', _z3.IntSort(), _z3.IntSort(), _z3.RealSort())
+
+
+def tw_def(k, n):
+    """definition of the opaque twiddle symbols at one index"""
+    from engine.prelude import COS, SIN
+    from engine.core import PI
+    k = _z3.IntVal(k) if isinstance(k, int) else getattr(k, 'z', k)
+    n = getattr(n, 'z', n)
+    a = 2 * PI * _z3.ToReal(k) / _z3.ToReal(n)
+    return _z3.And(TWR(k, n) == COS(a), TWI(k, n) == -SIN(a))
+
+
+ENV.update({'TWR': TWR, 'TWI': TWI, 'TW_DEF': tw_def})
+A_I = '2*PI*ToReal(i)/ToReal(n)'
+
+
+def rng_inv(nm, lo, hi, part):
+    e = 'res[k].re == TWR(k, n)' if part == 're' else 'res[k].im == TWI(k, n)'
+    return (nm, 'forall(lambda k: Implies(And(%s < k, k < %s), %s))' % (lo, hi, e))
+
+
+fn('dsplib::(anon)::_gen_coeffs_table', P2, serves=['C01', 'C05'], pure=True, extra_env=ENV,
+   requires=[('size', 'And(n >= 4, tmod(n, 4) == 0)')],
+   ensures=[('length', 'result.len == n'),
+            ('twiddles', 'forall(lambda k: Implies(And(0 <= k, k < n), And(result[k].re == TWR(k, n), result[k].im == TWI(k, n))))')],
+   loops={1: {'facts': ['TRIG8(%s)' % A_I,
+                        'And(TW_DEF(i, n), TW_DEF(n - i, n), TW_DEF(n2 + i, n), TW_DEF(n2 - i, n), TW_DEF(n4 + i, n), TW_DEF(n4 - i, n), TW_DEF(n3 + i, n), TW_DEF(n3 - i, n), '
+                        'TW_DEF(0, n), TW_DEF(n4, n), TW_DEF(n2, n), TW_DEF(n3, n))',
+                        'And(2*PI*ToReal(n - i)/ToReal(n) == 2*PI - {a}, 2*PI*ToReal(n2 + i)/ToReal(n) == PI + {a}, 2*PI*ToReal(n2 - i)/ToReal(n) == PI - {a}, '
+                        '2*PI*ToReal(n4 + i)/ToReal(n) == PI/2 + {a}, 2*PI*ToReal(n4 - i)/ToReal(n) == PI/2 - {a}, '
+                        '2*PI*ToReal(n3 + i)/ToReal(n) == 3*PI/2 + {a}, 2*PI*ToReal(n3 - i)/ToReal(n) == 3*PI/2 - {a}, '
+                        '2*PI*ToReal(n4)/ToReal(n) == PI/2, 2*PI*ToReal(n2)/ToReal(n) == PI, 2*PI*ToReal(n3)/ToReal(n) == 3*PI/2, 2*PI*ToReal(IntVal(0))/ToReal(n) == 0)'.format(a=A_I)],
+              'inv': [('len', 'And(res.len == n, n == 4*n4, n2 == 2*n4, n3 == 3*n4, n4 >= 1)'),
+                      ('axes', 'And(res[0].re == TWR(0, n), res[0].im == TWI(0, n), res[n4].re == TWR(n4, n), res[n4].im == TWI(n4, n), res[n2].re == TWR(n2, n), res[n2].im == TWI(n2, n), res[n3].re == TWR(n3, n), res[n3].im == TWI(n3, n))'),
+                      rng_inv('re_q1', '0', 'i', 're'), rng_inv('re_q4', 'n - i', 'n', 're'),
+                      rng_inv('re_q3', 'n2', 'n2 + i', 're'), rng_inv('re_q2', 'n2 - i', 'n2', 're'),
+                      rng_inv('im_q2', 'n4', 'n4 + i', 'im'), rng_inv('im_q1', 'n4 - i', 'n4', 'im'),
+                      rng_inv('im_q4', 'n3', 'n3 + i', 'im'), rng_inv('im_q3', 'n3 - i', 'n3', 'im')]}})
+
+fn('dsplib::(anon)::_gen_bitrev_table', P2, serves=['C01', 'C05'], pure=True, extra_env=ENV,
+   requires=[('size', 'And(n >= 4, exists(lambda k: And(2 <= k, k <= 30, n == pow2(k))))')],
+   ensures=[('length', 'result.len == tdiv(n, 2)'),
+            ('range', 'forall(lambda t: Implies(And(0 <= t, t < tdiv(n, 2)), And(0 <= result[t], result[t] <= n - 2)))')],
+   loops={1: {'facts': ['POW2_FACTS(i, s - 1)'],
+              'inv': [('stage', 'And(0 <= i, i <= s - 1, h == pow2(i), res.len == tdiv(n, 2), n == pow2(s), s >= 2, s <= 30)'),
+                      ('range', 'forall(lambda t: Implies(And(0 <= t, t < res.len), And(0 <= res[t], res[t] < h)))')],
+              'dec': 's - 1 - i'},
+          2: {'facts': ['POW2_FACTS(i, s - 1)'],
+              'inv': [('range_lo', 'forall(lambda t: Implies(And(0 <= t, t < k), And(0 <= res[t], res[t] < 2 * h)))'),
+                      ('range_hi', 'forall(lambda t: Implies(And(h <= t, t < h + k), And(0 <= res[t], res[t] < 2 * h)))'),
+                      ('range_rest', 'forall(lambda t: Implies(And(0 <= t, t < res.len, Or(t >= h + k, And(t >= k, t < h))), And(0 <= res[t], res[t] < h)))')]},
+          3: {'inv': [('doubled', 'forall(lambda t: Implies(And(0 <= t, t < i), And(0 <= res[t], res[t] <= n - 2)))'),
+                      ('pending', 'forall(lambda t: Implies(And(i <= t, t < res.len), And(0 <= res[t], 2 * res[t] <= n - 2)))')]}})
+
+fn('dsplib::Pow2FftPlan::Pow2FftPlan', P2, serves=['C01', 'C05'], assigns=['this'], extra_env=ENV,
+   requires=[('size', 'n >= 4')],
+   throws='Not(exists(lambda k: And(0 <= k, k <= 30, n == pow2(k))))',
+   ensures=[('invariant', P2_OK),
+            ('size', 'n_ == n'),
+            ('twiddles', 'forall(lambda k: Implies(And(0 <= k, k < n), And(coeffs_[k].re == TWR(k, n), coeffs_[k].im == TWI(k, n))))')])
